@@ -352,6 +352,8 @@ pub enum InactiveKind {
     Cancelled,
     Expired,
     OpenFailed,
+    /// the execution manager's own "no answer within the request timeout" report
+    OpenTimedOut,
 }
 
 #[derive(Debug, Clone, PartialEq, Eq, Serialize, Deserialize)]
@@ -464,13 +466,13 @@ impl<'a> Resolver<'a> {
     pub fn filter(&self, f: &FilterSpec) -> InstrumentFilter {
         match f {
             FilterSpec::None => InstrumentFilter::None,
-            FilterSpec::Exchanges(v) if !v.is_empty() => InstrumentFilter::Exchanges(OneOrMany::from_iter(v.iter().map(|e| ExchangeIndex(*e as usize % (self.indexed.exchanges().len() + 1))))),
-            FilterSpec::Instruments(v) if !v.is_empty() => InstrumentFilter::Instruments(OneOrMany::from_iter(v.iter().map(|i| InstrumentIndex(*i as usize % (self.n_inst() + 1))))),
-            FilterSpec::Underlyings(v) if !v.is_empty() => InstrumentFilter::Underlyings(OneOrMany::from_iter(v.iter().map(|i| {
+            // built through the public constructors; an empty selection selects nothing
+            FilterSpec::Exchanges(v) => InstrumentFilter::exchanges(v.iter().map(|e| ExchangeIndex(*e as usize % (self.indexed.exchanges().len() + 1)))),
+            FilterSpec::Instruments(v) => InstrumentFilter::instruments(v.iter().map(|i| InstrumentIndex(*i as usize % (self.n_inst() + 1)))),
+            FilterSpec::Underlyings(v) => InstrumentFilter::underlyings(v.iter().map(|i| {
                 let u = &self.indexed.instruments()[*i as usize % self.n_inst()].value.underlying;
                 Underlying { base: u.base, quote: u.quote }
-            }))),
-            _ => InstrumentFilter::None,
+            })),
         }
     }
 
@@ -552,6 +554,7 @@ impl<'a> Resolver<'a> {
                     InactiveKind::Expired => OrderState::expired(),
                     InactiveKind::Cancelled => OrderState::inactive(Cancelled { id: OrderId::new(format!("oid-{cid}")), time_exchange: t }),
                     InactiveKind::OpenFailed => OrderState::inactive(OrderError::Rejected(ApiError::OrderRejected("rejected".into()))),
+                    InactiveKind::OpenTimedOut => OrderState::inactive(OrderError::Connectivity(ConnectivityError::Timeout)),
                 };
                 let order = self.order(*cid, inst, *buy, state);
                 EngineEvent::Account(AccountStreamEvent::Item(AccountEvent { exchange: self.exchange_of(inst), kind: AccountEventKind::OrderSnapshot(Snapshot(order)) }))
@@ -572,7 +575,9 @@ impl<'a> Resolver<'a> {
                 self.trade_seq += 1;
                 let price = Decimal::new((*price_q).max(1) as i64 * 25, 2);
                 let quantity = Decimal::new((*qty).max(1) as i64, 1);
-                let fees = (price * quantity * Decimal::new(*fee_bp as i64, 4)).round_dp(8);
+                // fee in basis points of the fill's value; the top bit marks a rebate (negative fee)
+                let fee_rate = Decimal::new((*fee_bp & 0x7fff) as i64, 4) * if *fee_bp & 0x8000 != 0 { Decimal::NEGATIVE_ONE } else { Decimal::ONE };
+                let fees = (price * quantity * fee_rate).round_dp(8);
                 EngineEvent::Account(AccountStreamEvent::Item(AccountEvent {
                     exchange: self.exchange_of(inst),
                     kind: AccountEventKind::Trade(Trade {
@@ -627,9 +632,9 @@ pub mod strat {
     pub fn filter_spec() -> impl Strategy<Value = FilterSpec> {
         prop_oneof![
             2 => Just(FilterSpec::None),
-            3 => prop::collection::vec(0u8..5, 1..4).prop_map(FilterSpec::Exchanges),
-            3 => prop::collection::vec(0u8..9, 1..4).prop_map(FilterSpec::Instruments),
-            3 => prop::collection::vec(0u8..8, 1..3).prop_map(FilterSpec::Underlyings),
+            3 => prop::collection::vec(0u8..5, 0..4).prop_map(FilterSpec::Exchanges),
+            3 => prop::collection::vec(0u8..9, 0..4).prop_map(FilterSpec::Instruments),
+            3 => prop::collection::vec(0u8..8, 0..3).prop_map(FilterSpec::Underlyings),
         ]
     }
 
